@@ -33,3 +33,20 @@ for id in $ids; do
   echo "| $id | $p | yes | $verdict | $seed |" >> $out
   echo "$id $verdict seed=$seed"
 done
+python3 - <<'PYEOF' >> $out
+import json, os, re
+print()
+print("Notes on the rows that are not `caught` (from the meta.json of the change):")
+print()
+for d in sorted(os.listdir("seeded")):
+    if not re.fullmatch(r"C\d\d[a-z]", d):
+        continue
+    try:
+        r = json.load(open(f"seeded/{d}/meta.json")).get("result", {})
+    except Exception:
+        continue
+    if isinstance(r, dict):
+        for k in ("now", "note"):
+            if r.get(k):
+                print(f"* {d}: {r[k]}")
+PYEOF
